@@ -282,9 +282,10 @@ end Crate
 
 /-! ## mod.rs `run`: which crates get loaded -/
 
-/-- `none`: a pending crate cannot be loaded (`load(&crate_name)?` fails) -/
+/-- `none`: a pending crate cannot be loaded (`load(&crate_name)?` fails) — or the fuel ran out, which it cannot when
+    it is the number of available crates plus one and their names are distinct (every round loads a new one) -/
 def load (avail : List Crate) : Nat → List Crate → Option (List Crate)
-  | 0, loaded => some loaded
+  | 0, _ => none
   | fuel + 1, loaded =>
     let pending := (loaded.flatMap Crate.wanted).filter fun n => !(loaded.any fun l => l.name == n)
     match pending with
@@ -307,7 +308,14 @@ def Node.same (a b : Node) : Bool := a.krate == b.krate && a.item.id == b.item.i
 
 def nodeEdges (c : Crate) : Edges := c.edges.map fun e => (⟨c.name, e.1⟩, ⟨c.name, e.2⟩)
 
-def pathName (p : String) : String := (p.splitOn "::").getLast?.getD p
+/-- the reversed characters after the last `::` (scanning the reversed string for its first `::`) -/
+def lastSegRev : List Char → List Char → List Char
+  | [], acc => acc.reverse
+  | ':' :: ':' :: _, acc => acc.reverse
+  | ch :: rest, acc => lastSegRev rest (ch :: acc)
+
+/-- formatter.rs:428-434 `path_to_string`: what follows the last `::` -/
+def pathName (p : String) : String := String.ofList (lastSegRev p.toList.reverse []).reverse
 
 def primFormat : String → Format
   | "bool" => .prim "bool" | "char" => .prim "char"
@@ -418,14 +426,14 @@ def nHasField (x f : Node) : Bool := x.krate == f.krate && hasField x.item f.ite
 def nHasVariant (e v : Node) : Bool := e.krate == v.krate && hasVariant e.item v.item
 
 /-- `field(x, ·)` (formatter.rs:33-34) -/
-def fieldSet (E : Edges) (x : Node) : List Node := (E.filter fun e => e.1.same x && nHasField e.1 e.2).map (·.2)
+def fieldSet (E : Edges) (x : Node) : List Node := (E.filter fun e => e.1.same x && nHasField x e.2).map (·.2)
 
 /-- `fields(x, ·)`: node.rs:162-172 `ItemNode::fields` — declaration order, first match per id -/
 def orderedFields (E : Edges) (x : Node) : List Node :=
   x.item.fieldIds.filterMap fun id => (fieldSet E x).find? fun f => !f.item.attrs.skip && f.item.id == id
 
 /-- `variant(e, ·)` (formatter.rs:42-43) -/
-def variantSet (E : Edges) (e : Node) : List Node := (E.filter fun p => p.1.same e && nHasVariant p.1 p.2).map (·.2)
+def variantSet (E : Edges) (e : Node) : List Node := (E.filter fun p => p.1.same e && nHasVariant e p.2).map (·.2)
 
 /-- `variants(e, ·)`: node.rs:185-196 `ItemNode::variants` -/
 def orderedVariants (E : Edges) (e : Node) : List Node :=
@@ -526,7 +534,7 @@ def Item.isVariant (i : Item) : Bool :=
 
 /-- whatever the variant list of a reachable enum resolves to is a named variant item -/
 def variantsWF (E : Edges) : Bool :=
-  E.all fun e => !(nHasVariant e.1 e.2) || (e.2.item.name.isSome && e.2.item.isVariant)
+  E.all fun e => (variantSet E e.1).all fun v => v.item.name.isSome && v.item.isVariant
 
 /-- ids are unique per crate (rustdoc's `index` is a map) and crate names are distinct -/
 def Crate.idsUnique (c : Crate) : Bool := (c.items.map (·.id)).eraseDups.length == c.items.length
@@ -542,15 +550,16 @@ inductive Outcome where
   | panic
 deriving Repr
 
+/-- the `edge` relation `run` hands to `format` (mod.rs:100): `none` when loading fails -/
+def loadedEdges (avail : List Crate) (root : String) : Option Edges :=
+  match avail.find? fun a => a.name == root with
+  | none => none
+  | some r => (load avail (avail.length + 1) [r]).map fun loaded => loaded.flatMap nodeEdges
+
 /-- `run(root, load)` for the crates `avail` a loader can produce -/
 def registry (avail : List Crate) (root : String) : Outcome :=
-  match avail.find? fun a => a.name == root with
+  match loadedEdges avail root with
   | none => .errLoad
-  | some r =>
-    match load avail (avail.length + 1) [r] with
-    | none => .errLoad
-    | some loaded =>
-      let E := loaded.flatMap nodeEdges
-      if panics E then .panic else .ok (containers E)
+  | some E => if panics E then .panic else .ok (containers E)
 
 end M.Codegen
